@@ -87,13 +87,13 @@ def expected(case, start=0, clocks_exact=True):
             if a[0] == 'y':
                 b = b + F(a[1])
                 R[(rid, k + 1)] = (clk, b, b2s(clk, b))
-            elif a[0] == 'hang':
+            elif a[0] in ('hang', 'raise', 'yinf'):
                 return
             elif a[0] == 'log':
                 L[rid].append((b, s))
             elif a[0] == 'spawn':
                 spawn_at.setdefault(a[1], (a[2], s))
-            elif a[0] == 'tempo' and mutate:
+            elif a[0] in ('tempo', 'etempo') and mutate:
                 maps[a[1]].change(s, a[2])
 
     timeline(0, case['root'], start, True)       # the root alone fixes every tempo map
@@ -139,7 +139,8 @@ class Check(common.Check):
 
     def rule(self):
         return ('programs = trees of 1-6 routines (nesting <=3) with 1-30 yields each, deltas dyadic incl. 0, logs, '
-                'spawns on SystemClock / TempoClocks (tempi 2^k) / AppClock (NRT), tempo changes by the root; four '
+                'spawns on SystemClock / TempoClocks (tempi 2^k) / AppClock (NRT), tempo changes by the root (`tempo=` and '
+                '`etempo`), bodies that raise (logged by the clock) while other routines go on; four '
                 'classes: plain multi-clock, single-clock with tempo changes, multi-clock with tempo changes, '
                 'NRT-only with AppClock; each runs in NRT (main.process) and in RT under virtual time with a '
                 'scripted lateness (zero, common, per-thread, per-wake-up random incl. lateness larger than the '
@@ -180,6 +181,9 @@ class Check(common.Check):
                     acts.append(['log'])
             if rng.random() < 0.08:
                 acts.insert(rng.randrange(len(acts) + 1), ['hang'])
+            if i > 0 and rng.random() < 0.2:
+                # the body fails (the clock logs it and goes on); what follows in this body never runs
+                acts.insert(rng.randrange(len(acts) + 1), ['raise'])
             rts[i] = acts
         for i in range(1, n):
             p = parent[i]
@@ -187,12 +191,15 @@ class Check(common.Check):
         if klass in 'BC' and nt:
             for _ in range(rng.randint(1, 3)):
                 tclk = [int(c[1:]) for c in clocks if c[0] == 't'] or list(range(nt))
-                rts[0].insert(rng.randrange(len(rts[0]) + 1), ['tempo', rng.choice(tclk), rng.choice(TEMPI)])
+                rts[0].insert(rng.randrange(len(rts[0]) + 1),
+                              [rng.choice(['tempo', 'tempo', 'etempo']), rng.choice(tclk), rng.choice(TEMPI)])
         single = len({root} | {a[2] for s in rts for a in s if a[0] == 'spawn'}) == 1
-        has_tempo = any(a[0] == 'tempo' for a in rts[0])
+        has_tempo = any(a[0] in ('tempo', 'etempo') for a in rts[0])
+        has_etempo = any(a[0] == 'etempo' for a in rts[0])
         if klass == 'D':
             late = None
-        elif has_tempo and not single:
+        elif (has_tempo and not single) or has_etempo:
+            # etempo anchors at the PHYSICAL time: equal to the logical time only without lateness
             late = {'mode': 'zero', 'vals': []}
         else:
             mode = rng.choice(['zero', 'common', 'perthread', 'random', 'random'])
@@ -259,7 +266,7 @@ class Check(common.Check):
         d = {}
         if io['nrt']['trace'] != mo['nrt']:
             d['nrt'] = {'impl': io['nrt']['trace'], 'model': mo['nrt']}
-        if io['rt'] is not None and io['rt']['trace'] != mo['rt']:
+        if io['rt'] is not None and not io['rt'].get('skipped') and io['rt']['trace'] != mo['rt']:
             d['rt'] = {'impl': io['rt']['trace'], 'model': mo['rt'], 'moves': io['rt']['moves']}
         return d or None
 
@@ -271,7 +278,7 @@ class Check(common.Check):
         lcount = {}
         late = case.get('late') or {}
         single = len({case['root']} | {a[2] for s in case['rts'] for a in s if a[0] == 'spawn'}) == 1
-        has_tempo = any(a[0] == 'tempo' for s in case['rts'] for a in s)
+        has_tempo = any(a[0] in ('tempo', 'etempo') for s in case['rts'] for a in s)
         secs_exact = mode == 'nrt' or not has_tempo or single or late.get('mode') == 'zero'
         for p in evs:
             if p[0] == 'R':
@@ -332,8 +339,11 @@ class Check(common.Check):
         if ts and (F(nrt['elapsed']) != ts[-1] or F(nrt['elapsed']) != max(ts)):
             return {'what': f'NRT elapsed time ends at {nrt["elapsed"]}, last scheduled instant is {fr(max(ts))}',
                     'signature': 'c05:nrt-elapsed'}
-        if out['rt'] is not None:
+        if out['rt'] is not None and not out['rt'].get('skipped'):
             rt = out['rt']
+            if rt.get('error') and rt['error'].startswith('livelock'):
+                self._livelock = getattr(self, '_livelock', set()) | {common.canon(case)}
+                return {'what': 'RT: ' + rt['error'], 'signature': 'c05:rt-livelock'}
             v = self.check_run(case, rt, 'rt', F(rt['start']))
             if v:
                 return v
@@ -382,6 +392,8 @@ class Check(common.Check):
         return dict(sorted(h.items()))
 
     def shrink(self, case, fails):
+        if common.canon(case) in getattr(self, '_livelock', set()):
+            return case          # every attempt costs the full time-out; keep the input as found
         # drop routines from the end (with their spawns), then actions
         case = dict(case)
         while len(case['rts']) > 1:
